@@ -358,7 +358,7 @@ func newNutsDoc(services bool) docFixture {
 			return did.Service{ID: u, Type: typ, ServiceEndpoint: ep}
 		}
 		doc.Service = []did.Service{
-			mk("s1", "NutsComm", "grpc://nuts.example.com:5555"),
+			mk("s1", "NutsComm", "grpc://nuts.verif-harness.nl:5555"),
 			mk("s2", "node-contact-info", map[string]any{"email": "a@example.com", "name": "n"}),
 			mk("s3", "oauth", "https://example.com/oauth"),
 			mk("s4", "ref", kid.DID.String()+"/serviceEndpoint?type=oauth"),
@@ -605,21 +605,20 @@ func registerDIDDocs(w *world) {
 				return false, detail
 			}
 			kr := resolver.DIDKeyResolver{Resolver: staticResolver{"*": &doc}}
-			var firstErr error
-			note := func(err error) {
-				if err != nil && firstErr == nil {
-					firstErr = err
-				}
+			// verdict: resolution of the assertion key; the other relations and the relative form are exercised as well
+			for _, rel := range []resolver.RelationType{resolver.Authentication, resolver.KeyAgreement, resolver.CapabilityInvocation, resolver.CapabilityDelegation, resolver.RelationType(99)} {
+				_, _ = kr.ResolveKeyByID(fx.kid, nil, rel)
+				_, _, _ = kr.ResolveKey(fx.id, nil, rel)
 			}
-			for _, rel := range []resolver.RelationType{resolver.AssertionMethod, resolver.Authentication, resolver.KeyAgreement, resolver.CapabilityInvocation, resolver.CapabilityDelegation} {
-				_, err := kr.ResolveKeyByID(fx.kid, nil, rel)
-				note(err)
-				_, _, err = kr.ResolveKey(fx.id, nil, rel)
-				note(err)
+			_, _ = kr.ResolveKeyByID("#"+strings.SplitN(fx.kid, "#", 2)[1], nil, resolver.AssertionMethod)
+			_, _ = kr.ResolveKeyByID("not a did url", nil, resolver.AssertionMethod)
+			_, _ = kr.ResolveKeyByID(fx.kid, nil, resolver.AssertionMethod)
+			kid, _, err := kr.ResolveKey(fx.id, nil, resolver.AssertionMethod)
+			if err != nil {
+				return false, err.Error()
 			}
-			_, err := kr.ResolveKeyByID("#"+strings.SplitN(fx.kid, "#", 2)[1], nil, resolver.AssertionMethod)
-			note(err)
-			return errResult(firstErr)
+			_, err = kr.ResolveKeyByID(kid, nil, resolver.AssertionMethod)
+			return errResult(err)
 		}})
 
 	w.add(&entryPoint{name: "resolver.ServiceResolver", kind: "json", instances: instances, gen: unusual,
@@ -629,14 +628,13 @@ func registerDIDDocs(w *world) {
 				return false, detail
 			}
 			sr := resolver.DIDServiceResolver{Resolver: staticResolver{"*": &doc}}
+			// verdict: every service the document itself lists resolves; unknown types are exercised as well
 			var firstErr error
-			types := []string{"NutsComm", "node-contact-info", "oauth", "ref", "compound", "loop", "a", "c0", "r", "c", ""}
-			for _, s := range doc.Service {
-				types = append(types, s.Type)
+			for _, typ := range []string{"loop", "a", "c0", "r", "c", "", "NutsComm"} {
+				_, _ = sr.Resolve(resolver.MakeServiceReference(fx.id, typ), resolver.DefaultMaxServiceReferenceDepth)
 			}
-			for _, typ := range types {
-				q := resolver.MakeServiceReference(fx.id, typ)
-				_, err := sr.Resolve(q, resolver.DefaultMaxServiceReferenceDepth)
+			for _, s := range doc.Service {
+				_, err := sr.Resolve(resolver.MakeServiceReference(fx.id, s.Type), resolver.DefaultMaxServiceReferenceDepth)
 				if err != nil && firstErr == nil {
 					firstErr = err
 				}
@@ -774,7 +772,7 @@ func registerDIDKeyJWK(w *world) {
 				put("multicodec-overflow-uvarint", "did:key:z"+base58.Encode(bytes.Repeat([]byte{0xff}, 11)))
 				put("multicodec-unknown", multicodecKey(0x999999, edPub))
 				put("multicodec-zero", multicodecKey(0, edPub))
-				put("huge-key", multicodecKey(mcEd25519, make([]byte, 1<<16)))
+				put("huge-key", multicodecKey(mcEd25519, make([]byte, 1<<13)))
 			case "duplicate":
 				put("key-twice", multicodecKey(mcEd25519, append(append([]byte{}, edPub...), edPub...)))
 				put("p256-twice", multicodecKey(mcP256, append(append([]byte{}, p256c...), p256c...)))
